@@ -142,6 +142,13 @@ def run_case(vk, case):
             want[tuple(k)] = want.get(tuple(k), Fraction(0)) + Fraction(w)
         if nw != want:
             fail("node-weights", f"{nw} vs {want}")
+        # the same weights as seen through the graph's node attributes
+        attr = {tuple(k): Fraction(d.get("weight", 0)) for k, d in out[1].graph.nodes(data=True) if d.get("weight", 0) != 0}
+        if attr != want:
+            fail("node-attribute-weights", f"graph node attributes {attr} vs ballots {want}")
+        cast = {tuple(k) for k, d in out[1].graph.nodes(data=True) if d.get("cast")}
+        if cast != set(want):
+            fail("cast-flags", f"cast {sorted(cast)} vs ballots {sorted(want)}")
         return {"req": {"op": "node_weights", "n": n, "fix_short": case["fix_short"], "ballots": case["ballots"]},
                 "expect": {"ok": sorted([list(k), rat(v)] for k, v in nw.items())}, "monitors": monitors, "tags": tags}
     # lp distances
